@@ -192,7 +192,7 @@ func (b *TemplateBuilder) buildTranslate() {
 		}
 		strTrace := fmt.Sprintf("%s -> %s",
 			leftPartString, rightPartString)
-		caseCode += fmt.Sprintf("\n\t\tfmt.Printf(\"look ahead %%s, %s, go to state %%d\\n\", look, s)\n", strTrace)
+		caseCode += fmt.Sprintf("\n\t\tfmt.Printf(\"look ahead %%s, %%s, go to state %%d\\n\", look, %q, s)\n", strTrace)
 	}
 	b.ReduceTrace = caseCode
 }
